@@ -123,8 +123,8 @@ type Config struct {
 type ResKind int
 
 const (
-	KindBuffer      ResKind = 1
-	KindImageLinear ResKind = 2
+	KindBuffer       ResKind = 1
+	KindImageLinear  ResKind = 2
 	KindImageOptimal ResKind = 3
 )
 
@@ -132,9 +132,9 @@ func (k ResKind) Linear() bool { return k != KindImageOptimal }
 
 // ResReq is the memory requirement the simulated device reports for a resource.
 type ResReq struct {
-	Size             int
-	Alignment        int
-	TypeBits         uint32
+	Size              int
+	Alignment         int
+	TypeBits          uint32
 	RequiresDedicated bool
 	PrefersDedicated  bool
 	// IgnoreGranularity: the caller opted out of bufferImageGranularity handling for this resource
@@ -312,12 +312,12 @@ type Device struct {
 	totalFallible atomic.Int64
 
 	// fault injection
-	faultArmed    atomic.Int32
-	faultKind     int32 // -1 any fallible
+	faultArmed     atomic.Int32
+	faultKind      int32 // -1 any fallible
 	faultCountdown atomic.Int64
-	faultSticky   bool
-	faultResult   int
-	FaultsFired   atomic.Int64
+	faultSticky    bool
+	faultResult    int
+	FaultsFired    atomic.Int64
 
 	logMu      sync.Mutex
 	log        []Call
